@@ -179,7 +179,7 @@ Proof. induction l as [|a l IH]; [reflexivity|]. unfold zlen in *. cbn [filter].
 Lemma classic_ok bounds G cum count : classic_consistent bounds G cum -> count = zlen G ->
   classic_between bounds G G cum count = true.
 Proof.
-  intros [->|->] ->; [reflexivity|]. destruct bounds as [|b r]; [reflexivity|]. unfold classic_between.
+  intros [-> | ->] ->; [reflexivity|]. destruct bounds as [|b r]; [reflexivity|]. unfold classic_between.
   set (bs := b :: r). unfold classic_of. rewrite map_length, Nat.eqb_refl. cbn [andb].
   apply forallb_combine_map. intros a _. cbn [fst snd]. rewrite !Z.leb_refl. cbn [andb].
   apply Z.leb_le. apply zlen_filter_le.
@@ -489,7 +489,7 @@ Qed.
 Lemma m_add_total : forall m k inc, zsum (map snd (fst (m_add m k inc))) = zsum (map snd m) + inc.
 Proof.
   induction m as [|[k0 v] r IH]; intros k inc; cbn [m_add].
-  - cbn [fst map snd]. rewrite !zsum_cons. reflexivity.
+  - cbn [fst map snd]. unfold zsum. cbn [fold_right]. lia.
   - destruct (k =? k0); [cbn [fst map snd]; rewrite !zsum_cons; lia|].
     destruct (k <? k0); [cbn [fst map snd]; rewrite !zsum_cons; lia|].
     specialize (IH k inc). destruct (m_add r k inc) as [r' c]. cbn [fst map snd] in *. rewrite !zsum_cons, IH. lia.
